@@ -338,6 +338,9 @@ func runRns(seed int64, histories, steps int, out *Emitter) {
 			out.Emit(map[string]interface{}{"mod": "rns", "hist": hi, "i": i, "h": c.H, "pre": pre, "op": op, "ok": res.OK, "err": res.Err, "post": post})
 			out.Count("rns."+opKind(op), res.OK)
 		}
+		if withGenesis {
+			genesisRoundTrip(c, hi, "rns", out)
+		}
 		c.Close()
 	}
 }
